@@ -230,30 +230,76 @@ theorem extend : ∀ (es : List Cols) (c : Cols) (n : Nat), c.lock n →
     refine ⟨ih.panicked, ?_, ih.ret, ih.isNone, ih.lock, same_trans _ _ _ hp.same ih.same, by intro hh; rw [ih.panicked] at hh; simp [Spec.extend] at hh⟩
     rw [ih.st]; simp
 
+/-- the element at a position, as a one-row tree -/
+theorem rowCols_spec {d : Cols} {k : Nat} (hd : d.lock k) (i : Nat) (hi : i < k) :
+    (Model.rowCols d i).lock 1 ∧ d.same (Model.rowCols d i) ∧
+    (Model.rowCols d i).rows = (d.rows.drop i).take 1 := by
+  unfold Model.rowCols Model.noArgs
+  have hl := rows_len k d hd
+  have hi' : i < d.rows.length := by omega
+  cases perField0 (pickOp [i]) d k hd with
+  | ok s hrun _ _ _ hout _ hlo _ hso =>
+    rw [rows_noArgs d k hd] at hrun
+    simp only [pickOp, PolyOp.ofTotal_run, hl, List.all_cons, hi, decide_true, List.all_nil, Bool.and_self,
+      ↓reduceIte, Option.some.injEq] at hrun
+    subst hrun
+    simp only [List.filterMap_cons, List.getElem?_eq_getElem hi', List.filterMap_nil] at hout
+    refine ⟨lock_of_rows_len hlo (k := 1) (by rw [hout]; rfl), hso, ?_⟩
+    rw [hout, List.drop_eq_getElem_cons hi', List.take_succ_cons, List.take_zero]
+  | fail _ hfail _ _ _ =>
+    simp [pickOp, PolyOp.ofTotal, hi] at hfail
+
+theorem flatten_rows_range {α : Type} (R : List α) :
+    ((List.range R.length).map (fun i => (R.drop i).take 1)).flatten = R := by
+  induction R with
+  | nil => rfl
+  | cons x xs ih =>
+    rw [List.length_cons, List.range_succ_eq_map]
+    simp only [List.map_cons, List.drop_zero, List.take_succ_cons, List.take_zero, List.map_map, List.flatten_cons,
+      List.singleton_append, List.cons.injEq, true_and]
+    have : ((fun i => List.take 1 (List.drop i (x :: xs))) ∘ Nat.succ) = fun i => (xs.drop i).take 1 := by
+      funext i; simp
+    rw [this]
+    exact ih
+
 theorem resize (dr : Bool) (k : Nat) (hc : c.lock n) (he : e.lock 1) (hs : c.same e) :
-    Refines c (Model.resize c k e) (Spec.resize dr c.rows k e.rows) := by
+    Refines c (Model.resize dr c k e) (Spec.resize dr c.rows k e.rows) := by
   unfold Model.resize Spec.resize
   have hlen := rows_len n c hc
-  cases perField (resizeOp k) c e n 1 hc he hs with
-  | ok s hrun _ hp hst _ hl _ hsm _ =>
-    simp only [resizeOp, PolyOp.ofTotal_run, ↓reduceIte, Option.some.injEq] at hrun
-    subst hrun
-    by_cases hk : k ≤ c.rows.length
-    · simp only [hk, ↓reduceIte] at hst ⊢
-      exact ⟨hp, hst, rfl, rfl, ⟨_, hl⟩, hsm, by atom⟩
-    · simp only [hk, ↓reduceIte] at hst ⊢
-      exact ⟨hp, hst, rfl, rfl, ⟨_, hl⟩, hsm, by atom⟩
-  | fail _ hfail _ _ _ => simp [resizeOp] at hfail
+  rw [firstLen_lock c n hc, hlen]
+  by_cases hk : k > n
+  · have hk' : ¬ k ≤ n := by omega
+    simp only [hk, hk', ↓reduceIte]
+    have h := extend (List.replicate (k - n) e) c n hc (fun x hx => by
+      rw [List.eq_of_mem_replicate hx]; exact ⟨he, hs⟩)
+    refine ⟨by rw [h.panicked]; rfl, ?_, rfl, rfl, h.lock, h.same, h.atomic⟩
+    rw [h.st]
+    simp [Spec.extend]
+  · have hk' : k ≤ n := by omega
+    simp only [hk, hk', ↓reduceIte]
+    have h := truncate dr k hc
+    exact ⟨by rw [h.panicked]; rfl, by rw [h.st]; rfl, rfl, rfl, h.lock, h.same, h.atomic⟩
 
 theorem extendFromSlice {d : Cols} {k : Nat} (hc : c.lock n) (hd : d.lock k) (hs : c.same d) :
     Refines c (Model.extendFromSlice c d) (Spec.extendFromSlice c.rows d.rows) := by
   unfold Model.extendFromSlice Spec.extendFromSlice
-  cases perField extendCloneOp c d n k hc hd hs with
-  | ok s hrun _ hp hst _ hl _ hsm _ =>
-    simp only [extendCloneOp, PolyOp.ofTotal_run, ↓reduceIte, Option.some.injEq] at hrun
-    subst hrun
-    exact ⟨hp, hst, rfl, rfl, ⟨_, hl⟩, hsm, by atom⟩
-  | fail _ hfail _ _ _ => simp [extendCloneOp] at hfail
+  rw [firstLen_lock d k hd]
+  have hrows : ∀ x ∈ (List.range k).map (Model.rowCols d), x.lock 1 ∧ c.same x := by
+    intro x hx
+    obtain ⟨i, hi, rfl⟩ := List.mem_map.mp hx
+    have := rowCols_spec hd i (List.mem_range.mp hi)
+    exact ⟨this.1, same_trans _ _ _ hs this.2.1⟩
+  have h := extend ((List.range k).map (Model.rowCols d)) c n hc hrows
+  refine ⟨by rw [h.panicked]; rfl, ?_, rfl, rfl, h.lock, h.same, h.atomic⟩
+  rw [h.st]
+  simp only [Spec.extend, List.map_map]
+  congr 1
+  have hl := rows_len k d hd
+  rw [← flatten_rows_range d.rows, hl]
+  congr 1
+  apply List.map_congr_left
+  intro i hi
+  exact (rowCols_spec hd i (List.mem_range.mp hi)).2.2
 
 theorem toVec (hc : c.lock n) : Refines c (Model.toVec c) (Spec.toVec c.rows) :=
   ⟨rfl, rfl, rfl, rfl, ⟨n, hc⟩, same_refl c, by atom⟩
@@ -279,7 +325,7 @@ def mstep (dr : Bool) (c : Cols) : Op → Model.Out
   | .replace i e => Model.replace dr c i e | .remove i => Model.remove c i
   | .swapRemove i => Model.swapRemove c i | .truncate k => Model.truncate dr c k
   | .clear => Model.clear dr c | .retain keep => Model.retain dr c keep none (fun _ _ => none)
-  | .extend es => Model.extend c es | .resize k e => Model.resize c k e
+  | .extend es => Model.extend c es | .resize k e => Model.resize dr c k e
   | .splitOff i => Model.splitOff c i | .extendFromSlice d => Model.extendFromSlice c d
   | .append d => Model.append c d
 
